@@ -320,6 +320,66 @@ theorem compaction_sorted_perm (pk : List Nat) (hpk : pk ≠ []) (n : Nat) (l : 
 
 example : (compactAll [0] 2 witnessLayout).1.map (·.rows) = [[[.i32 1], [.i32 2], [.i32 5], [.i32 6], [.i32 7], [.i32 9]]] := by decide
 
+/-! ## Reachable layouts -/
+
+theorem visible_sorted (cmp : Row → Row → Ordering) (rs : RowSet) (h : SortedBy cmp rs.rows) : SortedBy cmp rs.visible := by
+  unfold RowSet.visible
+  have := liveRows_sublist_map_fst rs.tagged
+  rw [tagged_map_fst] at this
+  exact List.Pairwise.sublist this h
+
+theorem applyStoreOp_sorted (pk : List Nat) (hpk : pk ≠ []) (st : List RowSet × Nat) (op : StoreOp)
+    (h : ∀ rs ∈ st.1, SortedBy (keyCmp (ascKeys pk)) rs.rows) :
+    ∀ rs ∈ (applyStoreOp pk st op).1, SortedBy (keyCmp (ascKeys pk)) rs.rows := by
+  obtain ⟨l, n⟩ := st
+  cases op with
+  | ins rows =>
+    intro rs hrs
+    simp only [applyStoreOp, List.mem_append, List.mem_singleton] at hrs
+    rcases hrs with hrs | rfl
+    · exact h rs hrs
+    · exact (memtable_sorted pk rows hpk).1
+  | del c v1 v2 =>
+    intro rs hrs
+    simp only [applyStoreOp, List.mem_map] at hrs
+    obtain ⟨rs0, h0, rfl⟩ := hrs
+    exact h rs0 h0
+  | compact =>
+    intro rs hrs
+    simp only [applyStoreOp] at hrs
+    have hpk' : pk.isEmpty = false := by cases pk <;> simp_all
+    unfold compactAll at hrs
+    by_cases hlen : l.length ≤ 1
+    · simp only [hlen, if_true] at hrs
+      exact h rs hrs
+    · simp only [hlen, if_false, hpk', Bool.false_eq_true] at hrs
+      split at hrs
+      · cases hrs
+      · simp only [List.mem_singleton] at hrs
+        subst hrs
+        exact (merge_iter_sorted (ascKeys pk) (l.map RowSet.visible) (by
+          intro x hx
+          obtain ⟨r0, hr0, rfl⟩ := List.mem_map.1 hx
+          exact visible_sorted _ r0 (h r0 hr0))).1
+
+/-- Every row-set a write history can produce on a keyed table is key-sorted: the hypothesis
+`hsorted` of the range-scan and table-scan theorems holds for every reachable layout. -/
+theorem reachable_rowsets_sorted (pk : List Nat) (hpk : pk ≠ []) (ops : List StoreOp) :
+    ∀ rs ∈ (replayStore pk ops).1, SortedBy (keyCmp (ascKeys pk)) rs.rows := by
+  unfold replayStore
+  suffices H : ∀ (ops : List StoreOp) (st : List RowSet × Nat), (∀ rs ∈ st.1, SortedBy (keyCmp (ascKeys pk)) rs.rows) →
+      ∀ rs ∈ (ops.foldl (applyStoreOp pk) st).1, SortedBy (keyCmp (ascKeys pk)) rs.rows by
+    exact H ops ([], 0) (by intro rs hrs; cases hrs)
+  intro ops
+  induction ops with
+  | nil => intro st h; exact h
+  | cons op ops ih =>
+    intro st h
+    exact ih _ (applyStoreOp_sorted pk hpk st op h)
+
+example : (replayStore [0] [.ins [[.i32 9], [.i32 1]], .ins [[.i32 5]], .del 0 (.i32 1) (.i32 7), .compact]).1.map (·.rows)
+    = [[[.i32 5], [.i32 9]]] := by decide
+
 /-! ## The planner's order analysis and the `useless-order` rule -/
 
 /-- What the planner assumes of the storage engine (`Config.table_is_sorted_by_primary_key`):
@@ -465,6 +525,16 @@ theorem useless_order_sound (t : TableMeta) (lay : List RowSet) (k : Nat) (hk : 
     (hrule : isOrderBy t ks c = true) (h : execPlan t lay c = .ok rows) :
     execPlan t lay (.order ks c) = .ok rows :=
   useless_order_sound_partial t lay (scan_contract_sorted t lay k hk hs) ks c rows hrule h
+
+/-- ... and for EVERY layout a write history (INSERTs, DELETEs, compaction passes) produces - no
+hypothesis on the stored rows is left. -/
+theorem useless_order_sound_reachable (t : TableMeta) (k : Nat) (hk : t.primary = [k]) (ops : List StoreOp)
+    (ks : List OrdKey) (c : Plan) (rows : List Row)
+    (hrule : isOrderBy t ks c = true) (h : execPlan t (replayStore t.primary ops).1 c = .ok rows) :
+    execPlan t (replayStore t.primary ops).1 (.order ks c) = .ok rows := by
+  have hs := reachable_rowsets_sorted t.primary (by rw [hk]; simp) ops
+  rw [hk] at hs
+  exact useless_order_sound t _ k hk (by rw [hk]; simpa [ascKeys] using hs) ks c rows hrule h
 
 def witnessTable : TableMeta := { primary := [0], sortedByPk := true }
 
